@@ -56,22 +56,20 @@ SPEC = dict(
         "bind resources are not trimmed in the model (the harness sends none with surrounding white space); generated resources are "
         "canonicalised by order of first appearance",
     ],
-    level_text="Theorems for every checker (arbitrary, or getPassword-derived as the library defaults do), every number of connections "
-               "and every interleaving. For EVERY script, including several elements per read: nothing is bound/routed/answered before "
-               "authentication (needs_auth_only_authenticated, routes_/bind_only_authenticated); every routed or delivered stanza "
-               "carries the sending connection's own jid or its bare form (from_is_authenticated_jid, cannot_spoof, "
-               "replies_addressed_to_sender). For scripts in which every element is read on its own (*_partial): a connection's jid "
-               "is literally user@domain[/resource] for a well-formed user name whose credential the checker approved "
-               "(auth_only_if_checker_approved[_literal]_partial, auth_only_if_getPassword_approves_partial, "
-               "cannot_spoof_approved/_literal_partial) and the routing tables only reference open connections "
-               "(tables_reference_open_connections_partial, never_routes_to_closed_connection_partial) -- the latter is refuted for "
-               "several elements per read (C16_defect_bind_after_disconnect). Model tied to the real server by exhaustive + random "
-               "loopback scripts with one and two attacker connections, two checker flavours, deferred replies and multi-element writes.",
-    level_note="Proved about the hand-written model; model-to-code tie is differential (exhaustive to a depth, sampled beyond). Open "
-               "finding: the server keeps processing the elements of a read after it closed the stream (bind after disconnect -> "
-               "dangling routing entry -> crash), fix diff in fixes/. The authentication theorems are proved only for one element "
-               "per read (believed true in general; trivial once the fix is in). Seven earlier findings are fixed in the repo. "
-               "S2S/dialback, stringprep/case folding, extensions, TLS out of scope.",
+    level_text="Theorems for every checker (arbitrary, or getPassword-derived as the library defaults do), every number of connections, "
+               "every interleaving and every script, several elements per read included: a connection's jid is literally "
+               "user@domain[/resource] for a well-formed user name whose credential the checker approved "
+               "(auth_only_if_checker_approved[_literal], auth_only_if_getPassword_approves); nothing is bound/routed/answered "
+               "before authentication (needs_auth_only_authenticated, routes_/bind_only_authenticated); every routed or delivered "
+               "stanza carries the sending connection's own jid or its bare form (from_is_authenticated_jid, cannot_spoof, "
+               "cannot_spoof_approved, cannot_spoof_literal, replies_addressed_to_sender); the routing tables only ever reference "
+               "open connections (tables_reference_open_connections, never_routes_to_closed_connection). Model tied to the real "
+               "server by exhaustive + random loopback scripts with one and two attacker connections, two checker flavours, deferred "
+               "replies and multi-element writes.",
+    level_note="Proved about the hand-written model; model-to-code tie is differential (exhaustive to a depth, sampled beyond). No open "
+               "finding: eight findings (pre-auth stanza/bind/session, reply confusion, names with '/' or '@', stale routing entries, "
+               "SASL2 request unset, processing after disconnect) are fixed in the repo; witnesses and three child-process crash "
+               "probes stay in the corpus. S2S/dialback, stringprep/case folding of JIDs, extensions and TLS are out of scope.",
     design_ref="5.16",
     technique="Lean 4 invariant proofs over op lists + model/implementation correspondence on loopback",
 )
